@@ -2,6 +2,7 @@ import Mkdb.Proofs.Redo
 import Mkdb.Proofs.Wal
 import Mkdb.Proofs.RedoLink
 import Mkdb.Proofs.ReplayInsert
+import Mkdb.Proofs.ReplayMixed
 /-!
 # C02 — acknowledged statements survive a crash between statements
 
@@ -106,5 +107,41 @@ theorem C02_recovery_of_a_flushed_database_changes_nothing (log : List WalRec) (
     ∃ s', replayAll log s = (s', none, false) ∧ view s' = view s ∧ Cat s' pt sch tbls ∧
       s'.hdr = { s.hdr with nextLSN := log.foldl (fun m r => max m r.lsn) s.hdr.nextLSN } :=
   replay_clean log s pt sch tbls h hall
+
+end Mkdb.Store
+
+namespace Mkdb.Store
+open Mkdb.Engine Mkdb.Tree Mkdb.Page
+
+/-- **C02.acknowledged_statements_survive_an_unflushed_crash** (end to end, at the level of the plain
+in-memory model): run any list of INSERT / DELETE / UPDATE statements that the plain model accepts
+from a database whose log is empty; replay the log the statements wrote on the store as it was
+before them - the crash in which nothing since then reached the data file; the replay ends without
+error in a store that abstracts to the very plain database the live run ended in: every table holds
+exactly the effects of all acknowledged statements, and the row-id counter, the allocation frontier
+and the catalog root are the live ones (later statements never reuse a row id). -/
+theorem C02_acknowledged_statements_survive_an_unflushed_crash (sch : Levels) {db0 dbN : Engine.DB}
+    {sdb0 sdbN : Spec.SDB} {stmts : List EStmt}
+    (run : SpecRun sch db0 sdb0 stmts dbN sdbN) (hwal : db0.wal = [])
+    (pt : Levels) (tbls : List (Bytes × Levels)) (hA : AbsV db0.store pt sch tbls sdb0)
+    (hself : PtSelf pt) (hf : FreshM db0.store tbls) :
+    ∃ ptN tblsN rN, replayAll dbN.wal db0.store = (rN, none, false) ∧
+      AbsV dbN.store ptN sch tblsN sdbN ∧ AbsV rN ptN sch tblsN sdbN ∧
+      (∀ x ∈ catTrees ptN sch tblsN, ∀ o ∈ offs x, view rN o = view dbN.store o) ∧
+      rN.hdr.nextFree = dbN.store.hdr.nextFree ∧ rN.hdr.lastKey = dbN.store.hdr.lastKey ∧
+      rN.hdr.ptRoot = dbN.store.hdr.ptRoot ∧ rN.hdr.nextLSN ≤ dbN.store.hdr.nextLSN :=
+  crash_recovery_spec sch run hwal pt tbls hA hself hf
+
+/-- **C02.mixed_history_is_redone**: the same at the storage level, for any interleaving of row inserts,
+updates and deletes over several tables. -/
+theorem C02_mixed_history_is_redone (sch : Levels) {s0 sN : Store} {tbls tblsN : List (Bytes × Levels)}
+    {stmts : List RStmt} {logs : List WalRec} (run : LiveRunM sch s0 tbls stmts sN tblsN logs)
+    (pt : Levels) (h : Cat s0 pt sch tbls) (hself : PtSelf pt) (hf : FreshM s0 tbls) :
+    ∃ ptN rN, replayAll logs s0 = (rN, none, false) ∧
+      Cat sN ptN sch tblsN ∧ Cat rN ptN sch tblsN ∧
+      (∀ x ∈ catTrees ptN sch tblsN, ∀ o ∈ offs x, view rN o = view sN o) ∧
+      rN.hdr.nextFree = sN.hdr.nextFree ∧ rN.hdr.lastKey = sN.hdr.lastKey ∧
+      rN.hdr.ptRoot = sN.hdr.ptRoot ∧ rN.hdr.nextLSN ≤ sN.hdr.nextLSN :=
+  replay_history_mixed sch run pt h hself hf
 
 end Mkdb.Store
